@@ -235,7 +235,8 @@ class Run:
         self.log("drive %s: %s" % (family, p.stdout.strip().splitlines()[-1] if p.stdout.strip() else ""))
         return out
 
-    def validate_batch(self, trace, stage, consts=None, module="XBatch", timeout=3600, drift=False, env_extra=None):
+    def validate_batch(self, trace, stage, consts=None, module="XBatch", timeout=3600, drift=False, env_extra=None,
+                       skip_ok=False, invariants=("Validate",)):
         """Flow B, part 2: TLC validates every recorded event against the
         specification; events the specification does not allow are returned."""
         nlines = sum(1 for _ in open(trace))
@@ -243,7 +244,7 @@ class Run:
         c.update(consts or {})
         ee = {"VERIF_TRACE": trace}
         ee.update(env_extra or {})
-        r = self.tlc(module, c, invariants=("Validate",), name=stage, env_extra=ee, timeout=timeout)
+        r = self.tlc(module, c, invariants=invariants, name=stage, env_extra=ee, timeout=timeout)
         # every event must have been visited: one state per event + chunk states + initial
         rejected = []
         if os.path.exists(r["outfile"]):
@@ -262,7 +263,16 @@ class Run:
             ms.append({"stage": stage, "flow": "B", "line": rj["l"], "kind": ev.get("ev"), "expr": ev.get("x", ""),
                        "ctx": ev.get("ctx", 0), "fail": rj.get("fail", "rejected"), "want": rj.get("want"),
                        "got": {"ids": ev.get("ids"), "val": ev.get("val")}, "via": ev.get("via", ev.get("ev")),
-                       "case": {"d": ev.get("d"), "e": ev.get("e"), "ns": ev.get("ns"), "nav": ev.get("nav")}, "event": ev})
+                       "case": {"d": ev.get("d"), "e": ev.get("e"), "ns": ev.get("ns"), "nav": ev.get("nav"), "vals": ev.get("vals")},
+                       "event": ev})
+        nskip = 0
+        if skip_ok:
+            # the validator marks events outside the claimed fragment: counted, never judged
+            nskip = len([m for m in ms if m["fail"] == "skip"])
+            ms = [m for m in ms if m["fail"] != "skip"]
+            rejected = [x for x in rejected if x.get("fail") != "skip"]
+            if nlines and nskip * 2 > nlines:
+                raise ToolingError("%s: more than half of the events are outside the claimed fragment" % stage)
         self.traces += 1
         self.evaluations += nlines
         if drift:
@@ -276,7 +286,7 @@ class Run:
                 raise ToolingError("%s: more than half of the events are outside the modelled fragment" % stage)
             self.drift = getattr(self, "drift", []) + ms
             return ms
-        self.stages.append({"stage": stage, "flow": "B", "events": nlines, "rejected": len(rejected)})
+        self.stages.append({"stage": stage, "flow": "B", "events": nlines, "rejected": len(rejected), "outside_fragment": nskip})
         if events:
             self.samples.append(events[min(len(events) - 1, 1)])
         self.log("validate %s: %d events, %d rejected" % (stage, nlines, len(rejected)))
